@@ -117,7 +117,7 @@ func c20Run(c *core.Ctx, i int) {
 
 // c20TextAnswers: a text question is verified exactly when the answer program prints the question's output.
 func c20TextAnswers(c *core.Ctx) {
-	lines := [][]string{{"a", "b"}, {"1, 2,", "Robots say moo.", "🤖🐄"}, {"x"}}
+	lines := [][]string{{"a", "b"}, {"1, 2,", "Robots say moo.", "🤖🐄"}, {"x"}, {"  *", " ***", "*****"}, {"a", "    b", "\tc", "d"}}
 	for qi, ls := range lines {
 		md := "## Understanding sequence\n\nComplete the program that generates this output:\n\n```\n" + strings.Join(ls, "\n") + "\n```\n\nProgram:\n\n```evy\n\nprint \"" + ls[len(ls)-1] + "\"\n```\n"
 		prog := func(out []string) string {
@@ -135,6 +135,25 @@ func c20TextAnswers(c *core.Ctx) {
 			{"exact", ls, true}, {"shorter", ls[:len(ls)-1], len(ls) == 0}, {"one more line", append(append([]string{}, ls...), "extra"), false}, {"two more lines", append(append([]string{}, ls...), "extra", ls[0]), false},
 			{"last line different", append(append([]string{}, ls[:len(ls)-1]...), ls[len(ls)-1]+"2"), false}, {"first line different", append([]string{"z" + ls[0]}, ls[1:]...), false},
 			{"line inserted before", append([]string{"extra"}, ls...), false}, {"twice", append(append([]string{}, ls...), ls...), false},
+		}
+		if len(ls) >= 3 {
+			// white space inside the output (not at its two ends, which are trimmed) is part of it
+			mid := func(f func(string) string) []string {
+				out := append([]string{}, ls...)
+				out[1] = f(out[1])
+				return out
+			}
+			type tcase = struct {
+				what string
+				out  []string
+				ok   bool
+			}
+			cases = append(cases, tcase{"inner line indented more", mid(func(l string) string { return " " + l }), false},
+				tcase{"inner line with trailing blank", mid(func(l string) string { return l + " " }), false},
+				tcase{"inner line with trailing tab", mid(func(l string) string { return l + "\\t" }), false})
+			if d := strings.TrimLeft(ls[1], " \t"); d != ls[1] {
+				cases = append(cases, tcase{"inner line de-indented", mid(func(string) string { return d }), false})
+			}
 		}
 		for _, tc := range cases {
 			if len(tc.out) == 0 {
